@@ -125,3 +125,47 @@ class Level(_enum.StrEnum):
 class Color(_enum.Enum):
     RED = "r"
     BLUE = "b"
+
+
+# ---- C19: group / nested / direct-task programs; every body execution records the arguments it was really called with
+G_LOCK = _threading.Lock()
+G_CALLS: dict = {}      # tag -> list of (i, scale, base)
+G_ATTEMPTS: dict = {}   # (tag, i) -> executions so far
+G_SCRIPT: dict = {}     # i -> per-execution script ('r' retriable, 'k' other, 'o' ok), default ok
+G_LEAF = [None]
+
+
+def g_leaf(tag: str, i: int, scale: int = 1, base: list | None = None) -> int:
+    with G_LOCK:
+        G_CALLS.setdefault(tag, []).append((i, scale, tuple(base or ())))
+        a = G_ATTEMPTS.get((tag, i), 0)
+        G_ATTEMPTS[(tag, i)] = a + 1
+    script = G_SCRIPT.get(i, "")
+    step = script[a] if a < len(script) else "o"
+    if step == "r":
+        raise Retriable("again", i, a)
+    if step == "k":
+        raise Other("boom", i, a)
+    return (sum(base or ()) + i) * scale
+
+
+def g_parent_single(tag: str, x: int) -> int:
+    leaf = G_LEAF[0]
+    return leaf(tag, x + 1).result + leaf(tag, x + 2, 3).result
+
+
+def g_parent_group(tag: str, n: int) -> list:
+    leaf = G_LEAF[0]
+    return sorted(leaf.parallelize([(tag, i) for i in range(n)]).results)
+
+
+def g_direct(tag: str, i: int = 0, scale: int = 1, base: list | None = None, n: int = 0) -> int:
+    return g_leaf(tag, i, scale, base)
+
+
+def g_fan_tuples(args: dict) -> list:
+    return [(args["tag"], i, i + 1) for i in range(args["n"])]
+
+
+def g_fan_common(args: dict) -> tuple:
+    return {"tag": args["tag"], "base": [1, 2, 3]}, [({"i": i, "scale": 10} if i % 3 == 0 else {"i": i}) for i in range(args["n"])]
